@@ -809,7 +809,19 @@ class Exec:
         return res
 
     def stmt_With(self, s, st):
-        raise Unsupported("with statement", s)
+        """`with open(path) as f:` only: the file handle is an opaque value (what is read from it comes from the contract's `json_load` builder);
+        the body runs once; closing the file has no modelled effect"""
+        if len(s.items) != 1:
+            raise Unsupported("with statement with several items", s)
+        it = s.items[0]
+        ce = it.context_expr
+        if not (isinstance(ce, ast.Call) and isinstance(ce.func, ast.Name) and ce.func.id == "open"):
+            raise Unsupported("with statement other than `with open(...)`", s)
+        if it.optional_vars is not None:
+            if not isinstance(it.optional_vars, ast.Name):
+                raise Unsupported("with ... as <pattern>", s)
+            st.assign(it.optional_vars.id, ty.OpaqueV("file"))
+        return self.exec_block(s.body, st)
 
     def stmt_Global(self, s, st):
         raise Unsupported("global statement", s)
@@ -994,12 +1006,15 @@ class Exec:
                 continue
             cls, fname = fld.split(".", 1)
             decl, t = self.field_info(cls, fname)
-            if who == "FRESH":
+            if who in ("FRESH", "NEW"):
+                # FRESH: only objects allocated inside the loop are written; NEW: only objects allocated since the FUNCTION was entered (objects that
+                # existed before the call keep the values they have at the loop head)
+                keep = entry_alloc if who == "FRESH" else st.ghost.get("__alloc_entry__", entry_alloc)
                 for k, srt in zip(self.heap_keys(decl, fname, t), t.comps()):
                     a = self.heap_arr(st, k, srt)
                     na = z3.Const(ty.fresh_name(f"H:{k}"), z3.ArraySort(ty.RefSort, srt))
                     r = z3.Const(ty.fresh_name("fr"), ty.RefSort)
-                    st.assume(ty.FA([r], z3.Implies(z3.Select(entry_alloc, r), z3.Select(na, r) == z3.Select(a, r)),
+                    st.assume(ty.FA([r], z3.Implies(z3.Select(keep, r), z3.Select(na, r) == z3.Select(a, r)),
                                         patterns=[z3.Select(na, r)]))
                     st.heap[k] = na
                 continue
@@ -1927,11 +1942,13 @@ class Exec:
         self.cur_views = c.extra.get("callee_views", {})
         self.cur_never_raises = c.extra.get("callee_never_raises", {})
         self.cur_canonical_filters = bool(c.extra.get("canonical_filters"))
+        self.cur_extra = c.extra
         self.cur_props = tuple(props)
         n0 = len(self.obls)
         st, bound = self.initial_state(c, fi)
         closure = {cn: ty.named(ct, cn) for cn, ct in (c.extra.get("closure") or {}).items()}
         st.ghost["__inputs__"] = {k: v for k, v in list(bound.items()) + list(closure.items())}
+        st.ghost["__alloc_entry__"] = st.alloc
         pre = self.view(st, dict(bound, **closure))
         for cl in c.requires:
             for tag, g in self.eval_clauses(cl.fn, pre):
